@@ -157,6 +157,12 @@ class Model(object):
     def keys(self, hidden=False):
         return sorted((k, n) for k in KINDS for n in self.m[k] if hidden or n >= 0)
 
+    def resync(self, keys):
+        """take the key set from an observation (only after a simulation whose outcome the model does not predict)"""
+        self.m = {k: {} for k in KINDS}
+        for k, n in keys:
+            self.m[k][n] = {"refs": [], "parts": []} if k == "MIX" else {}
+
     def mix_usable(self, n):
         return n in self.m["MIX"] and all(s in self.m["SOLUTION"] for s in self.m["MIX"][n]["refs"])
 
@@ -250,7 +256,11 @@ class Model(object):
             if missing:
                 expect_error = True
                 if op.get("defs") or op.get("mods") or op.get("copy") or op.get("delete") or op.get("run_cells") or op.get("mixkw"):
-                    raise OutOfDomain("failing simulation with other requests")
+                    # known finding C14-pending: COPY / DELETE / RUN_CELLS requests of a simulation that stops with an error
+                    # stay pending and are executed by the next run; never generated, only in the registered replay
+                    if not op.get("known_pending"):
+                        raise OutOfDomain("failing simulation with other requests")
+                    flags.add("resync")
                 flags.add("use_missing")
             else:
                 flags.add("react")
